@@ -9,13 +9,96 @@ NT = lambda acc, rej, ab, obs, runs: len(obs[-1].calls) >= 3
 WHICH = ("c12",)
 
 
+def overlapping_runs(ctx):
+    """two runs in the same working directory without --tempdir, the second one started (and finished) while the first
+    is (a) writing its 'original' copy, (b) inside its first test, (c) inside a later test: each temp directory must
+    still be the faithful log of its own run and hold nothing else"""
+    import os
+    import shutil
+
+    from lithium.reducer import Lithium
+    from lithium.strategies import Minimize
+    from lithium.testcases import TestcaseLine
+
+    from .. import driver, loaders
+
+    for point in ("original", "test1", "test3"):
+        base = loaders.scratch() / f"c12-overlap-{os.getpid()}"
+        shutil.rmtree(base, ignore_errors=True)
+        base.mkdir()
+        cwd = os.getcwd()
+        os.chdir(base)
+        try:
+            data = {"A": b"a\nb\nc\nd\n", "B": b"x\ny\n"}
+            ran_b = []
+            runs = {}
+
+            def start(name, tc_cls=TestcaseLine):
+                path = base / f"{name}.txt"
+                path.write_bytes(data[name])
+                tc = tc_cls()
+                tc.load(path)
+                test = driver.ScriptedTest(path, RuntimeError)
+                lith = Lithium()
+                lith.testcase, lith.condition_script, lith.condition_args, lith.strategy = tc, test, ["x"], Minimize()
+                runs[name] = (lith, test)
+                return lith, test
+
+            def run_b():
+                if not ran_b:
+                    ran_b.append(True)
+                    lith, test = start("B")
+                    test.decider = lambda k, disk: "a" if k == 0 or b"x" in disk else "r"
+                    lith.run()
+
+            class Slow(TestcaseLine):
+                def dump(self, filename=None):
+                    if point == "original" and filename is not None and os.path.basename(str(filename)).startswith("original"):
+                        run_b()
+                    return super().dump(filename)
+
+            lith_a, test_a = start("A", Slow)
+
+            def dec_a(k, disk):
+                if (point == "test1" and k == 0) or (point == "test3" and k == 2):
+                    run_b()
+                return "a" if k == 0 or b"c" in disk else "r"
+
+            test_a.decider = dec_a
+            lith_a.run()
+            case = dict(stream="overlapping-runs", second_run_started_during=point)
+            ctx.evaluations += 1
+            ctx.bump("overlapping-runs")
+            if not ran_b:
+                raise common.HarnessError("the nested run did not start")
+            dirs = {}
+            for name, (lith, test) in runs.items():
+                o = driver.Observed()
+                o.calls, o.count = test.calls, lith.test_count
+                td = lith.temp_dir if os.path.isabs(str(lith.temp_dir)) else base / lith.temp_dir
+                dirs[name] = os.path.realpath(td)
+                o.tmp = driver.list_tmp(td)
+                driver.mon_c12(ctx, [o], data[name], dict(case, run=name))
+                want = {"original"} | {f"{k + 1}-" + ("interesting" if c["out"] == "a" else "boring") for k, c in enumerate(test.calls)}
+                got = {n for n, _ in o.tmp}
+                if got != want:
+                    ctx.fail("foreign-files", f"run {name} (temp dir {td}): files {sorted(got)} but its own log is {sorted(want)}", dict(case, run=name))
+            if dirs["A"] == dirs["B"]:
+                ctx.fail("shared-tempdir", f"both runs used {dirs['A']}", case)
+        finally:
+            os.chdir(cwd)
+            shutil.rmtree(base, ignore_errors=True)
+
+
 def search(ctx):
+    overlapping_runs(ctx)
     drv.d1(ctx, WHICH, 6000, NT, do_model=False)
     drv.d2_random(ctx, WHICH, NT, 600, do_model=False)
 
 
 def run(ctx) -> int:
     proof = common.proof_stage(ctx.pid)
+    overlapping_runs(ctx)
     drv.d1(ctx, WHICH, 20000 if ctx.thorough else 5000, NT)
     done = drv.d2_trees(ctx, WHICH, NT, 4000 if ctx.thorough else 300)
     if done:
